@@ -238,7 +238,12 @@ def exc_sig(run, case, sig):
     out = dict(sig)
     out["exc"] = type(run.exc).__name__
     arms = case["cfgs"][0]["arms"]
-    if "continuous is not supported" in str(run.exc) and any(isinstance(a, float) and a != int(a) for a in arms):
+    # sklearn's type_of_target calls non-integral float labels 'continuous'; depending on whether the logged decisions and
+    # the predictions of a batch both contain such a label the message is "continuous is not supported" or "... can't
+    # handle a mix of binary/multiclass and continuous targets" - one defect (confusion_matrix on float arm labels)
+    msg = str(run.exc)
+    if (("continuous is not supported" in msg or ("mix of" in msg and "continuous" in msg)) and
+            any(isinstance(a, float) and a != int(a) for a in arms)):
         out["kf_float"] = "float-arms-confusion-matrix"
     return out
 
